@@ -743,7 +743,16 @@ def case_interactive(api, how, res):
       return (tag, x)
     return put(f, fresh('ifn'))
   nm = fresh('inter')
-  gin.external_configurable(mk('one'), name=nm, module='c13')
+  one = mk('one')
+  gin.external_configurable(one, name=nm, module='c13')
+  # the first holder of the name is also registered under a second name, and looked up under scopes before the take-over
+  nm2 = fresh('second_name')
+  gin.external_configurable(one, name=nm2, module='c13zoo')
+  gin.bind_parameter('c13zoo.%s.x' % nm2, 'Z')
+  scoped_before = (gin.get_configurable('sc/c13.' + nm)(), gin.get_configurable('sc/deep/c13.' + nm)())
+  if scoped_before != (('one', 'dx'), ('one', 'dx')):
+    res.violation('registry_version_failed', '%r: scoped lookups before the take-over gave %r' % (desc, scoped_before), desc)
+    return
 
   def reg(tag):
     o = mk(tag)
@@ -781,6 +790,22 @@ def case_interactive(api, how, res):
   r = gin.get_configurable('c13.' + nm)()
   if r[0] != 'three':
     res.violation('interactive_reregistration_ignored', '%r: lookup still returns %r' % (desc, r), desc)
+    return
+  # ... also through scoped lookups that were made before the name changed hands
+  r_scoped = (gin.get_configurable('sc/c13.' + nm)(), gin.get_configurable('sc/deep/c13.' + nm)(),
+              gin.get_configurable('fresh_scope/c13.' + nm)())
+  if [x[0] for x in r_scoped] != ['three'] * 3:
+    res.violation('interactive_reregistration_ignored', '%r: scoped lookups of the name still return %r' % (desc, r_scoped), desc)
+    return
+  # ... and the previous holder stays reachable under its OTHER name, by selector and through the original object
+  try:
+    via = (gin.get_configurable('c13zoo.' + nm2)(), gin.get_configurable(one)(), gin.get_bindings(one))
+  except Exception as e:  # pylint: disable=broad-except
+    res.violation('registry_version_failed', '%r: the previous holder, still registered as c13zoo.%s, cannot be reached: %r' %
+                  (desc, nm2, e), desc)
+    return
+  if via != (('one', 'Z'), ('one', 'Z'), {'x': 'Z'}):
+    res.violation('registry_version_not_injected', '%r: previous holder under its other name: %r' % (desc, via), desc)
     return
   res.w('interactive_reregistration')
   res.outcome('interactive')
